@@ -530,6 +530,8 @@ pub struct Absorb {
     pub len_hi: i128,
     pub consts: Option<Vec<u8>>, // when all bytes are known constants
     pub taint: u8,
+    /// taint bits carried by EVERY byte of the item
+    pub taint_all: u8,
     pub lin: Option<String>, // for single bytes: rendered linear form (identity of ctx.len etc.)
 }
 
@@ -668,7 +670,7 @@ impl Val {
                 }
                 (Opaque::Xof { kind: k1, .. }, Opaque::Xof { kind: k2, .. }) if k1 == k2 => {
                     // different absorb histories merged (e.g. the three mu paths): keep kind only
-                    Val::Opq(Opaque::Xof { kind: k1.clone(), absorbed: Rc::new(vec![Absorb { src: "<joined>".into(), len_lo: 0, len_hi: i128::MAX, consts: None, taint: 3, lin: None }]), pos_lo: 0, pos_hi: i128::MAX, id: u32::MAX })
+                    Val::Opq(Opaque::Xof { kind: k1.clone(), absorbed: Rc::new(vec![Absorb { src: "<joined>".into(), len_lo: 0, len_hi: i128::MAX, consts: None, taint: 3, taint_all: 0, lin: None }]), pos_lo: 0, pos_hi: i128::MAX, id: u32::MAX })
                 }
                 (Opaque::Str, Opaque::Str) => Val::Opq(Opaque::Str),
                 _ => Val::Top,
